@@ -265,7 +265,8 @@ func init() {
 			runConc(c, genConcCase(c, "C05", false), res, "c05-", true)
 			return res
 		},
-		CaseTimeout: 3 * time.Minute,
+		CaseTimeout:      3 * time.Minute,
+		HangInconclusive: true,
 		Rule: "stress family: case = 4-10 client goroutines x 20-60 calls (Put/Get/Has/GetSize/Remove, unique values) over 3-10 keys concentrated in few buckets with shared stored prefixes, with the periodic flusher (1 ms) and/or an explicit flushing goroutine, GOMAXPROCS 2/4/16, perturbation mode free / noise (hash-determined Gosched and 20us-5ms sleeps at hook points) / depth-d (1-3 chosen hook hits delayed 5-20 ms); class A (even case index): one writer per key, any readers; class B (odd): several writers per key. Every call is recorded at the API boundary with one atomic logical clock; oracle: no error but key-exists, per-key linearizability (porcupine, reference map model) including reads after quiescence, fsck at quiescence. Gated family (case index mod 8 == 7): scripted windows G1-G6 of DESIGN appendix C. " +
 			"non-trivial iff >=2 operations of different clients on keys of one bucket overlapped in the logical clock AND a flush with work completed during the run; distinct = distinct hash of the ordered (role, hook) event sequence (first 256 events) = distinct interleavings observed",
 		Assumptions: []string{
@@ -286,7 +287,8 @@ func init() {
 			runConc(c, genConcCase(c, "C06", true), res, "c06-", true)
 			return res
 		},
-		CaseTimeout: 3 * time.Minute,
+		CaseTimeout:      3 * time.Minute,
+		HangInconclusive: true,
 		Rule: "as C05 on the multihash primary with file limits of 40-300 bytes, plus one goroutine looping primary GC cycles (thresholds 1/50/85/100) and one looping index GC cycles (scan-free alternating), or the background collectors (2-5 ms interval, with/without 1 ms time limit), and SetFileCacheSize toggled concurrently in half of the cases; same oracle (GC is invisible to the model). Gated family (index mod 8 == 7): windows G7-G11 of DESIGN appendix C. " +
 			"non-trivial iff overlapping same-bucket operations AND a flush with work happened; GC activity inside client activity is reported (gc_hook_events_inside_client_activity, relocations/truncates/unlinks during the run); distinct = distinct interleaving hashes",
 		Assumptions: []string{
@@ -294,13 +296,14 @@ func init() {
 		},
 	})
 	run.Register(&run.Check{
-		ID:              "C16",
-		Level:           "exploration",
-		Race:            true,
-		RaceIsViolation: true,
-		Cases:           func(tier string) int { return tierN(tier, 1600, 30000) },
-		Run:             runC16,
-		CaseTimeout:     3 * time.Minute,
+		ID:               "C16",
+		Level:            "exploration",
+		Race:             true,
+		RaceIsViolation:  true,
+		Cases:            func(tier string) int { return tierN(tier, 1600, 30000) },
+		Run:              runC16,
+		CaseTimeout:      3 * time.Minute,
+		HangInconclusive: true,
 		Rule: "case = one dense concurrent run in the race build: clients (Put/Get/Has/GetSize/Remove) + started flusher and/or explicit Flush loop + StorageSize/IndexStorageSize/PrimaryStorageSize/FreelistStorageSize/Err callers + SetFileCacheSize + collectors (background at 2-5 ms, or one harness-driven goroutine per collector) + in a quarter of the cases the rate-limited writer path, with file limits small enough that index and primary roll files while collectors read the current-file numbers. Verdict = Go race detector reports (happens-before based) with a go-storethehash frame, deduplicated by the pair of first store frames; runtime fatal errors (concurrent map access) end the worker and are attributed to the case. " +
 			"non-trivial iff client operations overlapped and a flush with work and at least one GC cycle ran during the case; distinct = distinct interleaving hashes",
 		Assumptions: []string{
@@ -331,7 +334,6 @@ func runC16(c run.Ctx) *core.CaseResult {
 }
 
 var _ = hookrt.Tick
-
 
 // waitNoCommitInFlight waits (bounded) until every commit that started has finished.
 func waitNoCommitInFlight(rt *hookrt.RT) bool {
